@@ -27,6 +27,8 @@ var exprTemplates = []string{
 	"f(...)", "f(x...)", "f(x, ...)", "f(..., x)", "f(..., x, ...)", "x", "(x)", "-x", "<-x", "x[y:]", "map[T]x{...}", "T[x]", "T[x, y]{}",
 	"func(x ...T) {}", "foo(func() { x })", "f(y)(x)", "x.y.f(...)", "chan T", "[]T", "*T", "struct{ x T }", "interface{ f() }",
 	"foo(...)", "bar(x + ...)", "(...)", "x(...)[y]", "foo(x, x)", "foo(x)(x)",
+	// elisions where a list must not be empty or where no list is
+	"x[...]", "T{x: ...}", "[...]T{x}", "f(...)(...)", "func() T { return ... }", "x.(...)", "[]T{...}[x]", "f(x)[...]",
 }
 
 var stmtTemplates = []string{
@@ -37,6 +39,10 @@ var stmtTemplates = []string{
 	"switch x := y.(type) {\ncase T:\n ...\n}", "select {\ncase x := <-y:\n ...\n}", "x: for { break x }", "break x", "goto x", "continue",
 	"{ ... }", "{\n x\n}", "x", "f(x)", "x.f(...)", "foo(x)\n...\nbar(x)", "x := f()\n...\nuse(x)", "...\nfoo()", "foo()\n...",
 	"type x T", "type x = T", "var (\n x = y\n)", "x += y", "*x = y", "x[y] = f", "_ = x",
+	// elisions in lists that must not be empty
+	"x := ...", "x = ...", "x, y := ...", "x, y = ...", "var x = ...", "var x T = ...", "const x = ...", "... := x", "... = f()",
+	"switch x {\ncase ...:\n y\n}", "select {\ncase ...:\n}", "x <- ...", "go ...", "defer ...", "if ... { x }", "for x := range ... { y }",
+	"continue x", "x:\n f()", "goto x\nx:\n f()",
 }
 
 var declTemplates = []string{
@@ -51,6 +57,53 @@ var declTemplates = []string{
 var prologTemplates = []string{
 	"", "", "", "package foo", "package x", "import \"a/b\"", "import x \"a/b\"", "import . \"a/b\"", "import _ \"a/b\"",
 	"import (\n \"a/b\"\n y \"c/d\"\n)", "package foo\n\nimport \"a/b\"", "import \"a/b\"\nimport \"c/d\"",
+}
+
+// absentVariants: target code of the same shape as a template in which an
+// optional part, where the template has a metavariable, is missing (a label, a
+// result, a receiver, an initialiser, a type, a tag, a key ...). A
+// metavariable of the pattern then meets "nothing" in the file.
+var absentVariants = map[string][]string{
+	"break x":                         {"for {\n\tbreak\n}"},
+	"continue x":                      {"for {\n\tcontinue\n}"},
+	"x: for { break x }":              {"for {\n\tbreak\n}", "L1:\n\tfor {\n\t\tbreak\n\t}"},
+	"return x":                        {"return"},
+	"return ..., x":                   {"return"},
+	"return x, ...":                   {"return"},
+	"if x := y; x != nil { ... }":     {"if a != nil {\n}"},
+	"if x {\n ...\n} else {\n ...\n}": {"if a {\n}"},
+	"var x T = y":                     {"var a = 1", "var a int"},
+	"var x T":                         {"var a = 2"},
+	"var x = y":                       {"var a int"},
+	"const x T = y":                   {"const a = 1"},
+	"const x = y":                     {"const (\n\ta = iota\n\tb\n)"},
+	"T{x}":                            {"[]T{{1}}", "map[string]T{\"k\": {1}}"},
+	"T{...}":                          {"[]T{{1, 2}, {}}"},
+	"x[y:]":                           {"a[:]", "a[:2]", "a[1:2:3]"},
+	"switch x { ... }":                {"switch {\ndefault:\n}"},
+	"switch x {\ncase y:\n ...\n}":     {"switch a {\ndefault:\n}", "switch {\ncase b:\n}"},
+	"switch x := y.(type) {\ncase T:\n ...\n}": {"switch b.(type) {\ncase int:\n}", "switch v := b.(type) {\ndefault:\n\t_ = v\n}"},
+	"for x := range y { ... }":        {"for range ch {\n}", "for a, b := range m {\n}"},
+	"for x := 0; x < y; x++ { ... }":  {"for ; a < 3; {\n}", "for {\n}", "for a < 3 {\n}"},
+	"select {\ncase x := <-y:\n ...\n}": {"select {\ncase <-ch:\n}", "select {\ndefault:\n}"},
+	"func (x T) f() { ... }":          {"func f() {\n}", "func (T) f() {\n}"},
+	"func (x *T) f(...) (...) { ... }": {"func f() {\n}", "func (*T) f() {\n}"},
+	"func f() (x T) { ... }":          {"func f() {\n}", "func f() T {\n\treturn 0\n}"},
+	"func f(x T) { ... }":             {"func f(T) {\n}", "func f() {\n}"},
+	"func f(x T, ...) y { ... }":      {"func f(T) {\n}", "func f(a T) {\n}"},
+	"func f[x any](y x) { ... }":      {"func f(y int) {\n}"},
+	"func f()":                        {"func f() {\n}"},
+	"func f(x ...T) { ... }":          {"func f(...T) {\n}"},
+	"type x struct { y T }":           {"type a struct{ T }", "type a struct {\n\tb T `tag`\n}"},
+	"type x[y any] T":                 {"type a T"},
+	"func(x T) y { ... }":             {"func(a T) {\n}", "func(T) int {\n\treturn 0\n}"},
+	"func(x ...T) {}":                 {"func(...T) {}"},
+	"x.(T)":                           {"a.(int)"},
+	"struct{ x T }":                   {"struct{ T }"},
+	"go x()":                          {"go func() {}()"},
+	"x, y := f()":                     {"a := f()"},
+	"var x, y = f()":                  {"var a = f()"},
+	"import x \"a/b\"":                {"import \"a/b\""},
 }
 
 // IllTyped is a generated patch with the target file it is meant to hit.
@@ -287,6 +340,9 @@ func DrawIllTyped(t *rapid.T) IllTyped {
 			tpl = drawTemplate(t, "extra")
 		}
 		code := instantiate(t, tpl.Text, fill)
+		if vs := absentVariants[tpl.Text]; len(vs) > 0 && rapid.IntRange(0, 2).Draw(t, "absent") == 0 {
+			code = pick(t, "absentVariant", vs)
+		}
 		switch tpl.Kind {
 		case "expr":
 			where := rapid.IntRange(0, 3).Draw(t, "exprPos")
